@@ -332,6 +332,17 @@ impl C09 {
             // make sure the history ends with a transmission (the one whose RNG outcomes are enumerated)
             ops.push(Op::Send { port: 9, len: 1, confirmed: false, txn: Txn::default() });
         }
+        // "every random stream": in one run in six the RNG hands out the same number many times in a row during a
+        // few of the transmissions (it recovers afterwards, so that every retry loop can still end)
+        if r.chance(1, 6) {
+            for op in ops.iter_mut() {
+                if let Op::Send { txn, .. } | Op::Join(txn) = op {
+                    if r.chance(1, 3) {
+                        txn.rng_stuck = Some(gen_rng_stuck(&mut r));
+                    }
+                }
+            }
+        }
         let expand = match tier {
             Tier::Thorough => true,
             Tier::Quick => run % 8 == 0,
